@@ -53,7 +53,12 @@ def value_ids():
     return _vids
 
 
-def replay_chain(item):
+def replay_chain_rev(item):
+    """the same chain, the pool values met in the opposite order (run in a fresh set of worker processes)"""
+    return replay_chain(item, reverse=True)
+
+
+def replay_chain(item, reverse=False):
     i, case = item
     from octave_mcp.core.constraints import ConstraintChain
     text = "∧".join(case["text"])
@@ -62,7 +67,7 @@ def replay_chain(item):
     except Exception as e:
         return {"i": i, "case": {"chain": case["chain"]}, "parse_ok": False, "obs": [], "text": text, "err": repr(e)}
     obs = []
-    for vid in value_ids():
+    for vid in (list(reversed(value_ids())) if reverse else value_ids()):
         try:
             r = chain.evaluate(pyvalue(vid), "F")
             obs.append({"v": vid, "valid": bool(r.valid), "codes": [str(e.code) for e in r.errors]})
@@ -200,6 +205,12 @@ def run(ctx):
             seen = {tuple(c["chain"]) for c in chains}
             chains += [c for c in res2.payload_lines() if tuple(c["chain"]) not in seen]
         recs = engine.parallel_map(replay_chain, list(enumerate(chains)), chunk=100)
+        # verdicts must not depend on what was evaluated before: new worker processes, chains and values in the opposite order
+        rev = engine.parallel_map(replay_chain_rev, list(reversed(list(enumerate(chains)))), chunk=100)
+        rmap = {r["i"]: {o["v"]: (o["valid"], o["codes"]) for o in r["obs"]} for r in rev}
+        for r in recs:
+            for o in r["obs"]:
+                o["same_rev"] = rmap.get(r["i"], {}).get(o["v"]) == (o["valid"], o["codes"])
         fails = ctx.validate("Trace_Constraints", [{k: r[k] for k in ("i", "case", "parse_ok", "obs")} for r in recs],
                              constants={"MaxChain": 0, "ChainPool": set()})
         failures = []
